@@ -142,7 +142,7 @@ pub(in crate::sql) fn distinct(
     use Transform::*;
 
     let mut res = Vec::new();
-    for transform in pipeline.clone() {
+    for (index, transform) in pipeline.clone().into_iter().enumerate() {
         match transform {
             Super(Take(rq::Take { ref partition, .. })) if partition.is_empty() => {
                 res.push(transform);
@@ -164,7 +164,8 @@ pub(in crate::sql) fn distinct(
                 // Check whether the columns within the partition are the same
                 // as the columns in the table; otherwise we can't use DISTINCT.
                 let columns_in_frame = ctx.anchor.determine_select_columns(&pipeline.clone());
-                let matching_columns = vecs_contain_same_elements(&columns_in_frame, &partition);
+                let matching_columns = vecs_contain_same_elements(&columns_in_frame, &partition)
+                    && reads_only(&pipeline[index + 1..], &partition, ctx);
 
                 if take_only_first && sort.is_empty() && matching_columns {
                     // DISTINCT
@@ -194,6 +195,33 @@ pub(in crate::sql) fn distinct(
         }
     }
     Ok(res)
+}
+
+/// DISTINCT applies to the whole SELECT list. It stands for "the first row of each group" only if
+/// nothing that follows the take needs a column that was there before the take and is not in the
+/// partition: such a column would be selected next to the partition columns and split the groups again.
+fn reads_only(following: &[SqlTransform], partition: &[CId], ctx: &Context) -> bool {
+    let mut known = partition.to_vec();
+    for transform in following {
+        let cids = match transform {
+            SqlTransform::Super(t) => {
+                if let Transform::Compute(compute) = t {
+                    known.push(compute.id);
+                }
+                CidCollector::collect_t(t.clone()).1
+            }
+            SqlTransform::Join { with, filter, .. } => {
+                let with = ctx.anchor.relation_instances.get(with).unwrap();
+                known.extend(with.table_ref.columns.iter().map(|(_, cid)| *cid));
+                CidCollector::collect(filter.clone())
+            }
+            _ => continue,
+        };
+        if cids.iter().any(|cid| !known.contains(cid)) {
+            return false;
+        }
+    }
+    true
 }
 
 fn into_column_sort(partition: &[CId]) -> Vec<ColumnSort<CId>> {
